@@ -688,7 +688,7 @@ func init() {
 
 func lifeCheck(prop string) checkFn {
 	return func(tier string, seed uint64, res *Result) error {
-		res.Rule = "schedules of the server life cycle (Start, Stop, arrivals, accept, admission decision, launch, requests, session end by peer close / protocol error / idle timeout / Stop, removal, close) executed on the REAL server step by step through the verifYield scheduling points and on the Lean model; after every step started / number of registered connections / served-or-not are compared, and model-independent oracles are evaluated (bound, admission rule in quiescent states, rejected never served and closed, Stop post-condition, idempotence, no goroutine left); targeted corpus first, then schedules drawn from the model's enabled steps (forced steps first: FIFO accept, acceptor exit, session end after Stop); distinct = multiset of step kinds + MaxClients"
+		res.Rule = "schedules of the server life cycle (Start, Stop, arrivals, accept, admission decision, launch, requests, session end by peer close / protocol error / idle timeout / Stop, removal, close) executed on the REAL server step by step through the verifYield scheduling points and on the Lean model; after every step started / number of registered connections / served-or-not are compared, and model-independent oracles are evaluated (bound, admission rule in quiescent states, rejected never served and closed, Stop post-condition, idempotence, no goroutine left); targeted corpus first, then schedules drawn from the model's enabled steps (forced steps first: FIFO accept, acceptor exit, session end after Stop); distinct = multiset of step kinds + MaxClients; C10 also: K = 3..8 real connections served once each, then Stop — every one must see the end of its stream and get no answer afterwards (stop-closes-all)"
 		mp, err := StartModel()
 		if err != nil {
 			return err
@@ -715,6 +715,7 @@ func lifeCheck(prop string) checkFn {
 		}
 		if prop == "C10" {
 			rapidRestart(tier, res)
+			stopClosesAll(tier, res)
 		}
 		if prop == "C09" {
 			slotProbes(tier, res)
@@ -730,6 +731,75 @@ func lifeCheck(prop string) checkFn {
 // goroutine of the previous run wakes up from its failed Accept while the next run is already
 // started). Afterwards exactly one accept goroutine may exist, the server must serve, and after a
 // final Stop none may be left.
+// stopClosesAll: K served connections (each has completed one exchange, so each is registered),
+// then Stop: when Stop has returned every one of them must have been closed by the server — the
+// peer sees the end of the stream — and a request written afterwards must not be answered. Real
+// sockets, no scheduler hook: the sessions tear themselves down concurrently with Stop's own loop.
+func stopClosesAll(tier string, res *Result) {
+	modbus.VerifSetScheduler(nil)
+	rounds := scale(tier, 12, 80)
+	for round := 0; round < rounds; round++ {
+		K := 3 + round%6
+		h := &scriptedHandler{script: []string{"ok"}, events: &[]string{}, evmu: &sync.Mutex{}}
+		srv, err := modbus.NewServer(&modbus.ServerConfiguration{URL: "tcp://127.0.0.1:0", Timeout: 2 * time.Second, MaxClients: uint(K), Logger: quietLog}, h)
+		if err != nil {
+			res.Note("stop-closes-all: " + err.Error())
+			return
+		}
+		if err := srv.Start(); err != nil {
+			res.Note("stop-closes-all: " + err.Error())
+			return
+		}
+		addr := srv.VerifListenAddr().String()
+		var conns []net.Conn
+		req := mbapFrame(7, 0, 1, 3, append(be16b(1), be16b(1)...))
+		okAll := true
+		for i := 0; i < K; i++ {
+			c, err := net.DialTimeout("tcp", addr, time.Second)
+			if err != nil {
+				okAll = false
+				break
+			}
+			conns = append(conns, c)
+			c.Write(req)
+			c.SetReadDeadline(time.Now().Add(time.Second))
+			buf := make([]byte, 32)
+			if n, _ := io.ReadAtLeast(c, buf, 11); n < 11 {
+				okAll = false
+			}
+		}
+		if !okAll { // environment trouble (the admission itself is C09's subject): drop the round
+			for _, c := range conns {
+				c.Close()
+			}
+			srv.Stop()
+			continue
+		}
+		srv.Stop()
+		line := fmt.Sprintf("%d connections served once each, then Stop()", K)
+		open, answered := 0, 0
+		for _, c := range conns {
+			c.Write(req)
+			c.SetReadDeadline(time.Now().Add(300 * time.Millisecond))
+			buf := make([]byte, 32)
+			n, err := c.Read(buf)
+			if n > 0 {
+				answered++
+			} else if ne, ok := err.(net.Error); ok && ne.Timeout() {
+				open++ // neither data nor end of stream: the server never closed this connection
+			}
+			c.Close()
+		}
+		good := open == 0 && answered == 0
+		res.Eval(fmt.Sprintf("stop-closes-all/K%d", K), good, line)
+		if !good {
+			res.Add(Finding{Kind: "property", Check: "stop-closes-all", Line: line,
+				Impl:   fmt.Sprintf("%d connection(s) still open after Stop returned, %d request(s) answered afterwards", open, answered),
+				Expect: "every connection closed, no request answered", Note: "when Stop returns every client connection has been closed and no request sent afterwards reaches a handler"})
+		}
+	}
+}
+
 func rapidRestart(tier string, res *Result) {
 	modbus.VerifSetScheduler(nil)
 	h := &scriptedHandler{script: []string{"ok"}, events: &[]string{}, evmu: &sync.Mutex{}}
